@@ -95,6 +95,16 @@ CPoint == [game |-> 15, method |-> "External", preset |-> PresetSeq[Digit(idx, 1
            threads |-> <<"2", "3", "16">>[Digit(idx, 6, 3) + 1],
            verdict |-> {"ok", "ThreadSpawnError"}, infinite |-> FALSE]
 
+\* ------------------------------------------------------------------ the unlimited family
+\* budget u64::MAX ("no limit": what the command-line tool passes for -t 0) with the threshold +infinity: the first
+\* iteration's bounds are below it, so the call returns after one iteration - whatever the budget is
+UTotal == 6 * 3 * 3 * 4
+UPoint == [game |-> <<1, 2, 5, 16>>[Digit(idx, 54, 4) + 1], method |-> MethodSeq[Digit(idx, 6, 3) + 1], preset |-> PresetSeq[Digit(idx, 1, 6) + 1],
+           par |-> [a |-> PInf, b |-> PInf, g |-> Q(Zero), w |-> Q(Zero)],
+           budget |-> "max", thr |-> "pinf",
+           threads |-> <<"1", "2", "3">>[Digit(idx, 18, 3) + 1],
+           verdict |-> {"ok", "ThreadSpawnError"}, infinite |-> FALSE]
+
 \* ------------------------------------------------------------------ the constructor family
 \* RegretParams::new documents its panics: "if any values are nan, or strat is negative".  Every tuple
 \* over {-1, 1, NaN, +inf, -inf} (strat also 0 and 2): it must panic exactly for those; for strat = +inf the
@@ -110,7 +120,7 @@ KPoint == [ctor |-> KTuple,
                        ELSE IF KTuple.g = "pinf" THEN {"ok", "panic"} ELSE {"ok"}]
 
 TotalOf == IF Family = "range" THEN RTotal ELSE IF Family = "contention" THEN CTotal
-           ELSE IF Family = "ctor" THEN KTotal ELSE Total
+           ELSE IF Family = "ctor" THEN KTotal ELSE IF Family = "unlimited" THEN UTotal ELSE Total
 
 \* a deterministic slice: every Of-th point starting at Slice
 Init == /\ idx \in {Slice + k * Of : k \in 0..((TotalOf - 1 - Slice) \div Of)}
@@ -122,6 +132,7 @@ Next == /\ ~done
         /\ IF Family = "range" THEN PrintT(<<"OUT", idx, ToJson(RPoint)>>)
            ELSE IF Family = "contention" THEN PrintT(<<"OUT", idx, ToJson(CPoint)>>)
            ELSE IF Family = "ctor" THEN PrintT(<<"OUT", idx, ToJson(KPoint)>>)
+           ELSE IF Family = "unlimited" THEN PrintT(<<"OUT", idx, ToJson(UPoint)>>)
            ELSE PrintT(<<"OUT", idx, ToJson([game |-> Game, method |-> Method, preset |-> Preset, par |-> Par,
                                         budget |-> Budget, thr |-> Thr, threads |-> Th,
                                         verdict |-> Verdict(Th), infinite |-> Budget = 0])>>)
